@@ -262,6 +262,7 @@ type decEncoderField struct {
 	arrayLength byte
 	index       int
 	isExtension bool
+	scalarChar  bool
 }
 
 // NewReadWriter allocates a ReadWriter.
@@ -309,6 +310,7 @@ func (rw *ReadWriter) Initialize() error {
 		}
 
 		isEnum := false
+		scalarChar := false
 		var dialectType fieldType
 
 		// enum
@@ -348,6 +350,7 @@ func (rw *ReadWriter) Initialize() error {
 
 				if len(tagLen) == 0 { // char
 					arrayLength = 1
+					scalarChar = (goType == field.Type)
 				} else { // string
 					slen, err := strconv.Atoi(tagLen)
 					if err != nil {
@@ -381,6 +384,7 @@ func (rw *ReadWriter) Initialize() error {
 			arrayLength: arrayLength,
 			index:       i,
 			isExtension: isExtension,
+			scalarChar:  scalarChar,
 		}
 
 		rw.sizeExtended += size
@@ -417,7 +421,8 @@ func (rw *ReadWriter) Initialize() error {
 			h.Write([]byte(fieldTypeString[f.ftype] + " "))
 			h.Write([]byte(f.name + " "))
 
-			if f.arrayLength > 0 {
+			// a scalar char is not an array: its length is not part of the CRC extra
+			if f.arrayLength > 0 && !f.scalarChar {
 				h.Write([]byte{f.arrayLength})
 			}
 		}
